@@ -25,13 +25,18 @@ def fragment_texts(fragments, use=None):
     out = []
     for fr in fragments:
         sels = []
+        nfield = sum(1 for s in fr['selections'] if s.startswith('field{'))
+        k = 0
         for s in fr['selections']:
             if s == 'leaf':
                 sels.append('leaf' if fr['on'] != 'Uni' else '__typename')
             elif s.startswith('field{'):
                 inner = s[6:-1]
                 inner = 'leaf' if inner == 'leaf' else inner
-                sels.append('field { %s }' % inner if fr['on'] != 'Uni' else '... on Obj { field { %s } }' % inner)
+                # the same field selected twice gets aliases (equal response keys would be one struct member twice)
+                alias = f'f{k}: ' if nfield > 1 else ''
+                k += 1
+                sels.append(f'{alias}field {{ {inner} }}' if fr['on'] != 'Uni' else f'... on Obj {{ {alias}field {{ {inner} }} }}')
             else:
                 sels.append(s)
         out.append('fragment %s on %s { %s }' % (fr['name'], fr['on'], ' '.join(sels)))
